@@ -14,6 +14,7 @@ from concurrent.futures import ThreadPoolExecutor
 
 from .. import core
 from . import pybind_common
+from ..gen import scopes
 
 
 def run_workers(jobs):
@@ -90,7 +91,7 @@ def run(tier, replay=None):
                     small.setdefault(r['n'], []).append(r['order'])
             if sum(len(v) for v in small.values()) < 1000:
                 raise core.MachineryFailure('HistoryGen produced too few orders')
-            progs = pybind_common.gen_cases(seed, 2500 if thorough else 260, mix={'c03': 0.2}, exec_limit=30)
+            progs = pybind_common.gen_cases(seed, 2500 if thorough else 180, mix={'c03': 0.2}, exec_limit=30)
             jobs = []
             for c in progs:
                 sites = [list(c['read_pos'][k]) for k in sorted(c['read_pos'], key=int)]
@@ -107,6 +108,23 @@ def run(tier, replay=None):
                     orders = [[win[i - 1] for i in p] for p in perms] + big_orders(n, rng, 6 if not thorough else 20)
                 jobs.append({'id': len(jobs), 'source': c['source'], 'filename': '/nonexistent-verif-root/p%d.py' % c['id'],
                              'sites': sites, 'orders': orders, 'kind': 'generated'})
+            # multi-scope modules: nested functions, sibling closures, lambdas, classes, comprehensions, global / nonlocal
+            import ast
+            for mi, src in enumerate(scopes.gen_modules(seed * 31 + 5, 1500 if thorough else 90)):
+                sites = sorted((n.lineno, n.col_offset, n.id) for n in ast.walk(ast.parse(src)) if isinstance(n, ast.Name) and isinstance(n.ctx, ast.Load))
+                sites = [list(x) for x in sites if x[2] != 'use']
+                n = len(sites)
+                if n < 2:
+                    continue
+                if n <= 5:
+                    orders = rng.sample(small[n], min(len(small[n]), 60))
+                else:
+                    win = sorted(rng.sample(range(1, n + 1), 5))
+                    orders = [[win[i - 1] for i in p_] for p_ in rng.sample(small[5], 30)] + big_orders(n, rng, 5)
+                    # repeated identical requests: every site twice in a row, and the whole module twice
+                    orders.append([i for i in range(1, n + 1) for _ in (0, 1)])
+                jobs.append({'id': len(jobs), 'source': src, 'filename': '/nonexistent-verif-root/s%d.py' % mi, 'sites': sites,
+                             'orders': orders, 'kind': 'scopes'})
             files = sorted(glob.glob(os.path.join(core.REPO, 'supp', '*.py')) + glob.glob(os.path.join(core.REPO, 'tests', '*.py')))
             import sysconfig
             std = sorted(glob.glob(os.path.join(sysconfig.get_paths()['stdlib'], '*.py')))
